@@ -153,13 +153,19 @@ def build_calls(tmpdir):
         fa.writer(fa_w, a["s1"], a["r1"], sync_marker=b"0123456789abcdef")
         fb_w = io.BytesIO()
         fa.writer(fb_w, a["s2"], a["r2"], sync_marker=b"0123456789abcdef")
+        seq_a = list(fa.reader(io.BytesIO(fa_w.getvalue())))
+        seq_b = list(fa.reader(io.BytesIO(fb_w.getvalue())))
         ra = fa.reader(io.BytesIO(fa_w.getvalue()))
         rb = fa.reader(io.BytesIO(fb_w.getvalue()))
         out_b = list(rb)
         out_a = list(ra)
-        return [out_a, out_b]
+        # two readers alive at once give what each gives alone
+        return {"a": out_a, "b": out_b, "__must__": out_a == seq_a and out_b == seq_b}
     add("interleaved_readers", lambda: {"s1": copy.deepcopy(S_A1), "r1": [copy.deepcopy(D_A1), copy.deepcopy(D_A1b)],
                                         "s2": copy.deepcopy(S_A2), "r2": [copy.deepcopy(D_A2)]}, interleaved)
+    # a writer schema that refers to a name it does not define: must fail the same way whatever was read before
+    add("read_dangling_ref", lambda: {"schema": {"type": "record", "name": "ns.Uses", "fields": [{"name": "p", "type": "ns.Point"}]}},
+        lambda fa, a, sh: fa.schemaless_reader(io.BytesIO(b"\x02\x04"), a["schema"]))
     return calls
 
 
@@ -186,11 +192,16 @@ def run_call(fa, calls, name, shared):
     mk, fn = calls[name]
     args = mk()
     before = snapshot_args(args)
+    must = True
     try:
-        res = {"ok": True, "v": project(fn(fa, args, shared))}
+        out = fn(fa, args, shared)
+        if isinstance(out, dict) and "__must__" in out:
+            must = bool(out.pop("__must__"))
+        res = {"ok": True, "v": project(out)}
     except Exception as e:  # noqa: BLE001
         res = {"ok": False, "exc": proj.pexc(e)["exc"], "msg": proj.cps(str(e)[:80])}
     after = snapshot_args(args)
+    res["must"] = must
     return res, before, after
 
 
